@@ -247,8 +247,89 @@ def _gen_wiring(rng: random.Random, tier: str) -> dict:
     return prog
 
 
+def _gen_reuse(rng: random.Random, tier: str) -> dict:
+    """Futures that outlive the run they were created in: the model is run, reset through the control surface and
+    run again; entities keep their (by then mostly resolved) future objects."""
+    prog = None
+    for _attempt in range(40):
+        prog = gen_program(rng, futures=True, hooks=False, max_pre=12)
+        prog["end_ns"] = None  # no horizon: the engine's one-event overshoot would make "resolved in run 1" ambiguous
+        prog.pop("use_duration", None)
+        for act in prog["table"].values():  # the harness keeps handles to the first run's events: no in-run cancels
+            act["cancel"] = []
+            if act.get("body"):
+                act["body"] = _strip_cancels(act["body"])
+        try:
+            ref1 = run_reference(prog)
+            if ref1.n_parked or not ref1.futures:
+                continue  # a process of the first run is still parked (it would wake up inside the second run)
+            init = {n: [f.resolved, f.value] for n, f in ref1.futures.items()}
+            run_reference(prog, initial_futures=init)
+        except Exception:  # noqa: BLE001
+            continue
+        prog["reuse"] = True
+        return prog
+    return prog
+
+
+def _strip_cancels(body):
+    out = []
+    for st in body:
+        if st["op"] == "cancel":
+            continue
+        if st["op"] == "sub":
+            st = {**st, "body": _strip_cancels(st["body"])}
+        out.append(st)
+    return out
+
+
+def run_reuse(case: dict) -> Result:
+    from hsverif.probe import EngineProbe, quiet_library_logging
+
+    quiet_library_logging()
+    res = Result()
+    try:
+        ref1 = run_reference(case)
+        if ref1.n_parked:
+            raise ValueError("parked")
+        init = {n: [f.resolved, f.value] for n, f in ref1.futures.items()}
+        ref2 = run_reference(case, initial_futures=init)
+    except Exception:  # noqa: BLE001
+        res.inconclusive = "program not reusable"
+        return res
+    rr = RealRun(case)
+    sim = rr.make()
+    end_ns = case.get("end_ns")
+    box = {}
+    with EngineProbe(log_deliveries=False, instant_cap=50000, total_cap=400000) as p:
+
+        def go():
+            sim.run()
+            box["first"] = rr.log
+            rr.log = []
+            rr.pid = len(case["pre"])
+            sim.control.reset()
+            sim.run()
+
+        status = p.run(sim, go)
+    if status != "completed":
+        res.inconclusive = f"run did not complete: {status}"
+        return res
+    res.count("events_monitored", p.n_deliveries)
+    res.count("reuse_runs_compared")
+    res.count("resumes_compared", sum(1 for e in ref2.log if e[0] == "R"))
+    if compare_logs(res, box["first"], ref1, end_ns):
+        compare_logs(res, rr.log, ref2, end_ns, component="SimFuture(created in an earlier run)")
+    st = ref2.stats
+    if st.get("await_already_resolved"):
+        res.count("cases_with_await_of_future_resolved_in_earlier_run")
+    res.nontrivial = bool(st.get("await_already_resolved"))
+    return res
+
+
 FAMILIES = {
+    "reuse": Family("reuse", _gen_reuse, run_reuse, shrink=shrink_program, case_timeout=30.0),
     "scripts": Family("scripts", gen, run, shrink=shrink_program, case_timeout=30.0),
     "wiring": Family("wiring", _gen_wiring, run, shrink=shrink_program, case_timeout=30.0),
 }
-BUDGET = {"quick": {"scripts": 2500, "wiring": 1500}, "thorough": {"scripts": 100000, "wiring": 60000}}
+BUDGET = {"quick": {"scripts": 2500, "wiring": 1500, "reuse": 600}, "thorough": {"scripts": 100000, "wiring": 60000, "reuse": 20000}}
